@@ -15,7 +15,7 @@ LEVEL_TEXT = ("Static structural proof of necessary conditions: (R16.1) the thre
               "and the dataset result; (R16.4) the command-line status is non-zero iff the unmodified validate result "
               "is non-empty; (R16.5) applicable sidecars are collected root->leaf and merged forward with later-wins. "
               "The applicability test on entities and equality with per-file validation are NOT decided.")
-LEVEL_EXTRA = 'Added after the seeded evaluation: (R16.2) both directory walkers apply the same exclusion test.'
+LEVEL_EXTRA = "Added after the seeded evaluation: (R16.2) both directory walkers apply the same exclusion test. (R16.6) a data file's sidecar is built from the whole list of sidecars applicable to it."
 
 
 def bind(call, callee, skip_self=False):
@@ -400,6 +400,40 @@ def run(ctx):
             why = "`a | b` with the accumulated result on the right: earlier files win"
         ctx.check(ok, "R16.5", ls.qualname, mg, loc(ls, mg),
                   "merged sidecar entries are not later-wins: %s" % why, desc="later file overrides earlier per column key")
+
+    # ---------------- R16.6: an events file is given the merge of *its* applicable sidecars
+    ctx.rule("R16.6", "the sidecar attached to a data file is built from the whole list of sidecars applicable to that file")
+    ginit = group.methods.get("__init__")
+    if ginit is None:
+        raise AnalysisError("anchor BidsFileGroup.__init__ vanished")
+    ctx.saw(ginit)
+    n_attach = 0
+    for lp in walk_no_nested(ginit.node):
+        if not isinstance(lp, ast.For):
+            continue
+        attach = [st for st in ast.walk(lp) if isinstance(st, ast.Assign) and any(isinstance(t, ast.Attribute) and t.attr == "sidecar" for t in st.targets)]
+        if not attach:
+            continue
+        lists = [st.targets[0].id for st in ast.walk(lp) if isinstance(st, ast.Assign) and isinstance(st.targets[0], ast.Name)
+                 and isinstance(st.value, ast.Call) and call_name(st.value) == "get_sidecars_from_path"]
+        for st in attach:
+            n_attach += 1
+            whole = False
+            parents = {}
+            for p_ in ast.walk(lp):
+                for ch in ast.iter_child_nodes(p_):
+                    parents[id(ch)] = p_
+            for x in ast.walk(lp):
+                if isinstance(x, ast.Name) and x.id in lists and isinstance(x.ctx, ast.Load):
+                    par = parents.get(id(x))
+                    if isinstance(par, (ast.Call, ast.keyword)):      # passed on as a whole
+                        whole = True
+            ctx.check(whole, "R16.6", ginit.qualname, st, loc(ginit, st),
+                      "the data file is given one element of its sidecar list (`%s`), i.e. the deepest sidecar as merged for *that sidecar's* "
+                      "entities: an applicable shallower sidecar that names an entity the deepest one does not (root `task-A_events.json` + "
+                      "`sub-01/sub-01_events.json`) is dropped from the events file's annotation" % norm(st.value)[:50],
+                      desc="data file's sidecar built from its whole sidecar list")
+    ctx.floor("R16.6", "sidecar attachments in BidsFileGroup.__init__", n_attach, 1)
 
 
 def _reversal_ops(fnode):
